@@ -619,7 +619,7 @@ def snapshot_private(ctx, rule='C03.snapshot-private'):
             flds = sorted({fld for (adt, fld) in du.fields_in(atoms) if last_seg(adt) == 'DBInner' and fld in shared})
             if flds:
                 nsites += 1
-                owner = f.owner if f.kind == 'Closure' else f
+                owner = (f.owner or f) if f.kind == 'Closure' else f
                 touch.setdefault(owner, []).append((f.loc(bb), flds[0]))
     f0 = floor(rule, 'acquisitions of shared DBInner state in the crate', nsites, 8)
     if f0:
